@@ -21,6 +21,26 @@ def gen_case(seed, tier="quick"):
     from .. import gen_geo as GG
     r = rnd(seed, "engine")
     c = r.random()
+    if c < 0.05:
+        # long thin parallelograms with a low density: the lattice of a grid sample degenerates in the
+        # short direction (aspect ratio far above the requested count)
+        import math
+        rs = rnd(seed, "strip")
+        L, w = rs.uniform(4.0, 80.0), rs.uniform(0.05, 0.4)
+        ang = rs.uniform(0, 2 * math.pi)
+        ox, oy = GG.q(rs.uniform(-3, 3)), GG.q(rs.uniform(-3, 3))
+        e1 = (L * math.cos(ang), L * math.sin(ang))
+        e2 = (-w * math.sin(ang), w * math.cos(ang))
+        if rs.random() < 0.3:
+            e1, e2 = e2, e1
+        dom = {"k": "par", "var": "x", "o": [ox, oy], "c1": [GG.q(ox + e1[0], 1024.0), GG.q(oy + e1[1], 1024.0)],
+               "c2": [GG.q(ox + e2[0], 1024.0), GG.q(oy + e2[1], 1024.0)]}
+        if rs.random() < 0.3:
+            dom = {"k": "transl", "d": dom, "v": [GG.q(rs.uniform(-1, 1)), GG.q(rs.uniform(-1, 1))]}
+        d = rs.choice((0.3, 1.05, 2.0, 4.0)) / (L * w) * rs.choice((1, 3, 8))
+        entry = {"kind": "domain", "method": "grid", "d": d} if rs.random() < 0.5 else {"kind": "sampler", "cls": "Grid", "d": d}
+        return {"format": 1, "property": ID, "engine": "geosim", "seed": seed, "rng": H(seed, "rng"), "dom": dom,
+                "pspace": [], "prows": [], "entry": entry, "fault": None}
     if c < 0.80:
         return geo_cases.gen_case(ID, seed)
     rng = np.random.default_rng(H(seed, "ref") % (2 ** 32))
